@@ -31,7 +31,7 @@ STRATEGIES = {
     "jit": {"use_tf_function": True, "jit_compile": True},
 }
 TRACED = ("tf_function", "tf_function_noid", "jit")
-OPS = ["set_params", "eval", "eval", "eval_new_object", "select_and_back", "select", "reset", "coords", "mask", "nll", "nll", "toy_loop", "nll_fault", "iterate_alone"]
+OPS = ["set_params", "eval", "eval", "eval_new_object", "eval_reordered", "select_and_back", "select", "reset", "coords", "mask", "nll", "nll", "toy_loop", "nll_fault", "iterate_alone"]
 
 RULE = (
     "sessions are generated from the seed: card x strategy option set x 3..8 operations applied in lock-step to a default eager reference model "
@@ -137,6 +137,18 @@ class Failure(Exception):
     pass
 
 
+def reorder(x, rs):
+    if type(x) is dict:
+        keys = list(x)
+        keys = rs.sample(keys, len(keys))
+        if len(keys) > 1 and keys == list(x):
+            keys = keys[1:] + keys[:1]
+        return {k: reorder(x[k], rs) for k in keys}
+    if type(x) in (list, tuple):
+        return type(x)(reorder(i, rs) for i in x)
+    return x
+
+
 class Session:
     def __init__(self, spec, log):
         import numpy as np
@@ -208,6 +220,14 @@ class Session:
         elif k == "eval_new_object":
             self.Ds[op["d"]] = self.make(self.sut, self.p[op["d"]])
             self.compare_density(op["d"], "eval(new equal object)")
+        elif k == "eval_reordered":
+            # the same sample in a dictionary whose (nested) keys were inserted in another order - what
+            # data_merge (iterates a set: follows the hash seed), a cache file of another run or a hand-built
+            # dict produce; key order is not part of the data
+            if isinstance(self.Ds[op["d"]], dict):
+                self.Ds[op["d"]] = reorder(self.Ds[op["d"]], Stream(op["seed"], "order"))
+                self.log.count("probe.sample_with_permuted_key_order")
+            self.compare_density(op["d"], "eval(keys of the sample inserted in another order)")
         elif k in ("select", "select_and_back"):
             names = [self.resnames[(op["i"] + j) % len(self.resnames)] for j in range(1 + op["i"] % 2)]
             self.ramp.set_used_res(names)
